@@ -297,6 +297,35 @@ func (x *Exec) frontBuiltin(env *SpecEnv, st *State, name string, args []TV) (TV
 			return TV{VScalar{IntLit(int64(cnt))}, intT}, true
 		}
 		return TV{}, false
+	case "selects":
+		// selects(ch): the select statement at hand (site select) has a case on channel ch
+		if len(args) == 1 && x.curSelect != nil && len(st.frames) > 0 {
+			want, ok := x.force(st, args[0].V).(VChan)
+			if !ok {
+				return TV{}, false
+			}
+			for _, s := range x.curSelect.States {
+				if cv, ok := x.force(st, x.eval(st, st.top(), s.Chan)).(VChan); ok {
+					if (cv.Obj >= 0 && cv.Obj == want.Obj) || (cv.Id.S != "" && cv.Id.S == want.Id.S) {
+						return TV{VScalar{TTrue}, boolT}, true
+					}
+				}
+			}
+			return TV{VScalar{TFalse}, boolT}, true
+		}
+		return TV{}, false
+	case "cronexpr":
+		// cronexpr(schedule): the expression a cron schedule was parsed from (an unknown string for a schedule
+		// of unknown origin)
+		if len(args) == 1 {
+			if iv, ok := x.force(st, args[0].V).(VIface); ok && x.cronExprs != nil {
+				if e, ok := x.cronExprs[iv.Id.S]; ok {
+					return TV{VScalar{e}, types.Typ[types.String]}, true
+				}
+			}
+			return TV{VScalar{x.sym.Fresh("cronexpr.unknown", SStr)}, types.Typ[types.String]}, true
+		}
+		return TV{}, false
 	case "jwtverifies":
 		// jwtverifies(s): the token s is well formed and its signature verifies (what jwt.ParseWithClaims decides)
 		if len(args) == 1 {
